@@ -209,6 +209,9 @@ class C06(Property):
         "modelled, not verified: one FIFO input port whose termination token comes last (C03); Python's sorted() is stable (List.mergeSort); "
         "all(dict) iterates the keys; dict insertion order",
     ]
+    trusted_base = trusted_base + [
+        "harness/sfv/rt/loop_safe.py: shuffling event loop whose reordering of ready handles is safe against call_soon_threadsafe "
+        "(the shared rt/loop.py drops handles appended by the aiosqlite thread while it shuffles)"]
     technique = ("Lean 4 theorems about executable models of LoopCombinator._product, LoopOutputStep.run + CWL _process_output and the "
                  "LoopCombinatorStep checklist + ast translator of the guards + differential correspondence on the real classes")
     level_text = ("grade A: unbounded theorems — iteration numbering for every interleaving of instances, loop output for any arrival order of "
